@@ -43,9 +43,11 @@ TRUSTED = {
     ("skip_bytes::{closure#0}", "explicit-panic", ""): "panic!(\"Read too much bytes\") guards the same allocator-capacity assumption; unreachable while with_capacity(n) gives exactly n",
     ("skip_bytes::{closure#0}", "Overflow:Add", ""): "bytes_counter += bytes_read: bounded by `bytes` (u32) under the same assumption",
     ("run::{closure#0}", "precondition:unwrap", ""): "Semaphore::acquire() fails only after close(), which the crate never calls (C17.R2 census)",
-    # keyed by the operands, in whatever function of the store module the expiry sum is written (helper extraction moves it)
-    ("memory_store::store::", "Overflow:Add", ("header.timestamp", "header.time_to_live")): "record.header.timestamp + ttl as u64: the timestamp is the server's own tick counter (seconds since start, stamped by MemoryStore::set) and ttl < 2^32 — the sum stays below 2^64 for 5*10^11 years of uptime",
-    ("BinaryHandler::get", "Overflow:Add", ""): "value.len() as u32 + 4 + key.len() as u32 overflows only for a stored value of 4 GiB - 4 or more; the item size limit is a u32 (at most 1024m per the CLI) and a single request cannot exceed it (append growth to 4 GiB is an advisory, not a request-path input)",
+    # keyed by the operands — a record header's own timestamp and time_to_live — in whatever function of the crate the expiry
+    # sum is written (helper extraction moves it into the store, the Cache trait or a method of the header type)
+    ("memcrs::", "Overflow:Add", ("timestamp", "time_to_live")): "record.header.timestamp + ttl as u64: the timestamp is the server's own tick counter (seconds since start, stamped by MemoryStore::set) and ttl < 2^32 — the sum stays below 2^64 for 5*10^11 years of uptime",
+    # keyed by the operands — the u32 length of a stored value, in whatever function the get response's body length is summed
+    ("memcrs::", "Overflow:Add", ("trunc(u32, len(", ".value")): "value.len() as u32 + 4 + key.len() as u32 overflows only for a stored value of 4 GiB - 4 or more; the item size limit is a u32 (at most 1024m per the CLI) and a single request cannot exceed it (append growth to 4 GiB is an advisory, not a request-path input)",
 }
 
 PANIC_CALLS = {
